@@ -18,8 +18,8 @@ from vrunner import Result, Stats, Unit, hypothesis_unit, shard_seed
 ID = "C14"
 LEVEL = "exploration"
 TECHNIQUE = ("schedule enumeration at the sender seam (the only place where the client yields to the event loop): every request "
-             "parks on a future and a driver releases, answers or drops pending requests one at a time following a choice "
-             "sequence; DFS enumerates ALL schedules for small operation sets, Hypothesis draws choice sequences for larger ones; "
+             "parks on a future and a driver releases, answers or drops pending requests -- or restarts the engine, or lets the agent "
+             "answer now and delivers that answer later -- one step at a time following a choice sequence; DFS enumerates ALL schedules for small operation sets, Hypothesis draws choice sequences for larger ones; "
              "oracle = each operation's outcome equals its outcome when run alone on a fresh client and agent")
 RULE = ("case = 2..6 operations from {get, multiget, getnext, walk, bulkwalk, table, set, a get the agent refuses with an error-status and no bindings} on one client or spread over two clients (talking to one engine, or to two engines behind one address on different ports) "
         "of one loop x protocol {v2c, SNMPv3 authPriv / authNoPriv, first use concurrent} x a stepping wall clock (request ids "
